@@ -270,6 +270,9 @@ def one(seed, i, res, tape):
         loggable = ["args", "retries", "kw"]  # the parameters of the callable that is decorated, as Python binds them
     if optkind in ("include_args", "both") and loggable:
         opts["include_args"] = rng.sample(loggable, rng.randint(0, len(loggable)))
+        if flavour == "method" and rng.random() < 0.3:
+            # self is a parameter too, so it may be named; it is never logged
+            opts["include_args"].insert(rng.randint(0, len(opts["include_args"])), "self")
     if optkind in ("no_result", "both"):
         opts["include_result"] = False
     chan_u, chan_d = Channel(), Channel()
@@ -417,7 +420,7 @@ def one(seed, i, res, tape):
             expected["cls"] = "<class>"
         expected.pop("self", None)
         if "include_args" in opts:
-            expected = {k: expected[k] for k in opts["include_args"]}
+            expected = {k: expected[k] for k in opts["include_args"] if k != "self"}
         got = {k: v for k, v in s.items() if k not in META}
         if flavour == "class" and "cls" in got:
             got["cls"] = "<class>"
